@@ -329,7 +329,7 @@ func runC09(c *Ctx) {
 			bad = fmt.Sprintf("panic: %v", pan)
 		}
 		if bad == "" {
-			post := cpu.States
+			post := Arch(cpu.States)
 			exp := pre
 			exp.AF = z80.Register{Hi: sp.A, Lo: sp.F}
 			exp.BC = z80.Register{Hi: sp.B, Lo: sp.C}
@@ -489,7 +489,7 @@ func runC09(c *Ctx) {
 		sparseOps++
 		mu.Unlock()
 		bad := ""
-		post := cpu.States
+		post := Arch(cpu.States)
 		exp := pre
 		exp.AF = z80.Register{Hi: sp.A, Lo: sp.F}
 		exp.BC = z80.Register{Hi: sp.B, Lo: sp.C}
